@@ -105,6 +105,13 @@ def run(ctx):
                                       or (x[0] == "ret" and "immediate" in x[1]) for x in lv)
                             if not okv:
                                 val_bad = val_bad or "PUSH stores %s" % A.show(v)
+                            # the pushed operand is read on the entry state (PUSH RSP pushes the old RSP, push [rsp+8] reads
+                            # through the old RSP): register / address / memory versions must be the entry versions
+                            for x in lv:
+                                if x[0] == "reg" and x[3] != 0:
+                                    val_bad = val_bad or "PUSH reads its operand after RSP was already changed"
+                                if x[0] == "mem" and (x[3] != 0 or (U.strip(x[2])[0] == "addr" and U.strip(x[2])[2] != 0)):
+                                    val_bad = val_bad or "PUSH reads its memory operand after the stack was already changed"
                     else:
                         # the loaded value must reach its destination unchanged
                         pass
